@@ -766,6 +766,7 @@ class VacancyMediated(object):
 
         self.thermo.generate(Nthermo, originstates=False)
         self.kinetic.generate(Nthermo + 1, originstates=True)  # now include origin states (for removal)
+        self.vkinetic.starset = None  # kinetic is the same object with new contents: force regeneration
         self.vkinetic.generate(self.kinetic)
         # TODO: check the GF calculator against the range in GFstarset to make sure its adequate
         self.GFexpansion, self.GFstarset = self.vkinetic.GFexpansion()
